@@ -200,6 +200,11 @@ func (m *SessionManager) CreateSession(clientMAC, serverMAC net.HardwareAddr) (*
 	m.mu.Lock()
 	defer m.mu.Unlock()
 
+	// All 65535 usable session IDs taken: the search below would never end
+	if len(m.sessions) >= 0xFFFF {
+		return nil, fmt.Errorf("no free PPPoE session ID")
+	}
+
 	// Find next available session ID
 	for {
 		if m.nextID == 0 {
